@@ -149,7 +149,7 @@ type batch struct {
 
 // runBatch fans run indices [0,total) out over nproc worker processes
 // (strided), restarting a worker after the run that killed it.
-func runBatch(bin string, base simapi.Job, total, nproc int, scratch, tag string, perWorkerTimeout time.Duration) *batch {
+func runBatch(bin, refBin string, base simapi.Job, total, nproc int, scratch, tag string, perWorkerTimeout time.Duration) *batch {
 	t0 := time.Now()
 	if nproc > total {
 		nproc = total
@@ -165,9 +165,27 @@ func runBatch(bin string, base simapi.Job, total, nproc int, scratch, tag string
 		go func(k int) {
 			defer wg.Done()
 			from := k
+			refPath := ""
+			if refBin != "" {
+				// reference phase in the plain build: reference diagnostics and
+				// calibration for exactly this worker's run indices
+				refPath = filepath.Join(scratch, fmt.Sprintf("%s-w%d.ref.json", tag, k))
+				rj := base
+				rj.Mode = "ref"
+				rj.From, rj.To, rj.Stride = from, total, nproc
+				rj.RefPath = refPath
+				ro := runWorker(refBin, &rj, scratch, fmt.Sprintf("%s-w%d-ref", tag, k), 4, perWorkerTimeout)
+				if !ro.Finished {
+					mu.Lock()
+					bt.Harness = append(bt.Harness, fmt.Sprintf("reference worker %d died (exit %d): %s", k, ro.ExitCode, short(ro.Stderr, 2000)))
+					mu.Unlock()
+					return
+				}
+			}
 			for attempt := 0; from < total; attempt++ {
 				job := base
 				job.Mode = "runs"
+				job.RefPath = refPath
 				job.From, job.To, job.Stride = from, total, nproc
 				wo := runWorker(bin, &job, scratch, fmt.Sprintf("%s-w%d-a%d", tag, k, attempt), 4, perWorkerTimeout)
 				mu.Lock()
